@@ -103,6 +103,20 @@ void vp_owner()
     }                                               // t dies (moved-from in the mv 1 / 2 cases)
     // the moved-from source of a move-assignment was destroyed just now: it must not have tripped anything
     if (moved_assign) vp_assert(make_detector(1).isTripped() == l1_before, 1907);
+#ifdef SECOND_TRIGGER
+    {
+        // line 0 is tripped for good: attaching a further trigger to it later must not reset it
+        vp_assert(make_detector(0).isTripped(), 1908);
+#if LINEKIND == 1
+        TripWireTrigger again(*g_line0);
+#elif LINEKIND == 2
+        TripWireTrigger again;
+#else
+        TripWireTrigger again(0u);
+#endif
+        vp_assert(make_detector(0).isTripped(), 1909);
+    }
+#endif
     vp_cover(0);
 }
 // detector on line 0: false until a live trigger's destructor has begun; once true, true forever; sees the data
@@ -173,6 +187,13 @@ void vp_seq()
         vp_assert(!d1.isTripped(), 1913);
     }
     vp_assert(d1.isTripped() && !d0.isTripped(), 1914);   // lines are independent
+    {
+        TripWireTrigger t2(1u);                            // a later trigger on a tripped line: the line stays tripped (one-way)
+        vp_assert(d1.isTripped(), 1915);
+        TripWireDetector d1b(1u);
+        vp_assert(d1b.isTripped(), 1916);
+    }
+    vp_assert(d1.isTripped(), 1917);
 #endif
     vp_cover(0);
 }
